@@ -167,6 +167,7 @@ class FnAnalysis:
         self.env = {}
         self.fresh_slots = set()
         self.local_fns = {}
+        self.returned = False
         self.callables = {}        # local name -> [ast.Lambda | ast.Attribute (bound method)] it may hold
 
     # ------------------------------------------------------------------ setup
@@ -218,6 +219,8 @@ class FnAnalysis:
     # ------------------------------------------------------------------ statements
     def block(self, body):
         for st in body:
+            if getattr(self, 'returned', False):
+                break                      # statements after a `return` that is reached on every path through the block so far
             self.stmt(st)
 
     def stmt(self, st):
@@ -255,11 +258,18 @@ class FnAnalysis:
             else:
                 e0, f0 = dict(self.env), set(self.fresh_slots)
                 self.block(st.body)
-                e1, f1 = self.env, self.fresh_slots
-                self.env, self.fresh_slots = dict(e0), set(f0)
+                e1, f1, r1 = self.env, self.fresh_slots, getattr(self, 'returned', False)
+                self.env, self.fresh_slots, self.returned = dict(e0), set(f0), False
                 self.block(st.orelse)
-                self.env = merge(e1, self.env)
-                self.fresh_slots = f1 & self.fresh_slots
+                r2 = self.returned
+                if r1 and not r2:
+                    pass                                   # only the else path continues
+                elif r2 and not r1:
+                    self.env, self.fresh_slots = e1, f1    # only the then path continues
+                else:
+                    self.env = merge(e1, self.env)
+                    self.fresh_slots = f1 & self.fresh_slots
+                self.returned = r1 and r2
         elif isinstance(st, (ast.For, ast.While)):
             for _ in range(6):
                 e0, f0 = dict(self.env), set(self.fresh_slots)
@@ -272,6 +282,7 @@ class FnAnalysis:
                 else:
                     self.ev(st.test)
                 self.block(st.body)
+                self.returned = False                      # (a return inside a loop body need not be reached)
                 self.env = merge(e0, self.env)
                 self.fresh_slots = f0 & self.fresh_slots
                 if envkey(self.env) == envkey(e0):
@@ -280,9 +291,11 @@ class FnAnalysis:
         elif isinstance(st, ast.Return):
             if st.value is not None:
                 self.summary.ret = self.summary.ret | self.ev(st.value)
+            self.returned = True
         elif isinstance(st, ast.Try):
             e0 = dict(self.env)
             self.block(st.body)
+            self.returned = False                          # (the body may have been left by an exception before its return)
             for h in st.handlers:
                 e1 = self.env
                 self.env = merge(e0, e1)
@@ -697,8 +710,10 @@ class FnAnalysis:
         for k, v in kws.items():
             self.env[k] = v
         self.summary.ret = Val()
+        saved_returned, self.returned = getattr(self, 'returned', False), False
         self.block(fnode.body)
         r = self.summary.ret
+        self.returned = saved_returned
         self.env, self.summary.ret = saved_env, saved_ret
         return r if (r.alias or r.contains) else FRESH
 
